@@ -8,7 +8,6 @@ import (
 	"fmt"
 	"strings"
 
-
 	"verifharness/internal/gen"
 )
 
@@ -665,10 +664,14 @@ func (g *genCtx) request(rid string) *rq {
 			return gen.Pick(r, []string{"no-cache", "max-age=0", "no-cache, no-store", "xno-cache", "no-cachex", "private,no-cache", "no-cache=\"x\"", "NO-CACHE", ""})
 		}},
 		{"X-Requested-With", func() string { return gen.Pick(r, []string{"XMLHttpRequest", "xmlhttprequest", "x"}) }},
-		{"Referer", func() string { return gen.Pick(r, []string{"http://ref.example/p?q=1", "/local", "", "javascript:alert(1)", "http://é/"}) }},
+		{"Referer", func() string {
+			return gen.Pick(r, []string{"http://ref.example/p?q=1", "/local", "", "javascript:alert(1)", "http://é/"})
+		}},
 		{"X-Name", func() string { return r.Ident(0, 8) }},
 		{"X-N", func() string { return gen.Pick(r, []string{"1", "x", "-1", "99999999999"}) }},
-		{"Connection", func() string { return gen.Pick(r, []string{"keep-alive", "close", "Keep-Alive", "upgrade", "close, keep-alive", ""}) }},
+		{"Connection", func() string {
+			return gen.Pick(r, []string{"keep-alive", "close", "Keep-Alive", "upgrade", "close, keep-alive", ""})
+		}},
 		{"User-Agent", func() string { return "ua/" + r.Ident(1, 5) }},
 		{"Origin", func() string { return "http://" + gen.Pick(r, hostPool) }},
 	}
